@@ -24,22 +24,22 @@ import (
 )
 
 type MonEvent struct {
-	N     int    `json:"n"`
-	Tgt   string `json:"tgt"`
-	Deliv int    `json:"deliv"`
-	Op    string `json:"op"` // start rcpt body status commit abort | chk:<stage> | mod:<stage>
-	Arg   string `json:"arg,omitempty"`
-	Err   string `json:"err,omitempty"`
-	Quar  bool   `json:"quarantine,omitempty"`
-	MsgID string `json:"msg_id,omitempty"`
+	N     int       `json:"n"`
+	Tgt   string    `json:"tgt"`
+	Deliv int       `json:"deliv"`
+	Op    string    `json:"op"` // start rcpt body status commit abort | chk:<stage> | mod:<stage>
+	Arg   string    `json:"arg,omitempty"`
+	Err   string    `json:"err,omitempty"`
+	Quar  bool      `json:"quarantine,omitempty"`
+	MsgID string    `json:"msg_id,omitempty"`
 	At    time.Time `json:"-"`
 }
 
 // Recorder is the shared event log of one scenario.
 type Recorder struct {
-	mu      sync.Mutex
-	Events  []MonEvent
-	ndeliv  int
+	mu     sync.Mutex
+	Events []MonEvent
+	ndeliv int
 	// Faults: key "<module id>/<op>" or "<module id>/<op>/<arg>" -> fault class "T" (temporary), "P" (permanent), "U" (unclassified)
 	Faults map[string]string
 	// problems found by the typestate monitor
@@ -162,8 +162,8 @@ type MonTarget struct {
 }
 
 func (t *MonTarget) Init(*config.Map) error { return nil }
-func (t *MonTarget) Name() string          { return "target.verif_mon" }
-func (t *MonTarget) InstanceName() string  { return "verif_mon_" + t.ID }
+func (t *MonTarget) Name() string           { return "target.verif_mon" }
+func (t *MonTarget) InstanceName() string   { return "verif_mon_" + t.ID }
 
 type monDelivery struct {
 	t     *MonTarget
@@ -309,7 +309,9 @@ func (s *scriptCheckState) res(stage, arg string) module.CheckResult {
 	return s.c.action.Apply(module.CheckResult{Reason: err})
 }
 
-func (s *scriptCheckState) CheckConnection(ctx context.Context) module.CheckResult { return s.res("conn", "") }
+func (s *scriptCheckState) CheckConnection(ctx context.Context) module.CheckResult {
+	return s.res("conn", "")
+}
 func (s *scriptCheckState) CheckSender(ctx context.Context, from string) module.CheckResult {
 	return s.res("sender", "")
 }
@@ -326,8 +328,8 @@ func (s *scriptCheckState) Close() error { return nil }
 type ScriptModifier struct{ ID string }
 
 func (m *ScriptModifier) Init(*config.Map) error { return nil }
-func (m *ScriptModifier) Name() string          { return "modify.verif_mod" }
-func (m *ScriptModifier) InstanceName() string  { return "verif_mod_" + m.ID }
+func (m *ScriptModifier) Name() string           { return "modify.verif_mod" }
+func (m *ScriptModifier) InstanceName() string   { return "verif_mod_" + m.ID }
 
 type scriptModState struct {
 	m *ScriptModifier
